@@ -13,7 +13,8 @@ import LinOp.C07.ModelFn
   slots <op…>                            → kinds of representation() / of the gradient tuple
 
 Operator trees (prefix): dense n m | diag n | cdiag n | toep n | cmul O | mm A B | sum A B | mul A B |
-  mask r s ROWS COLS O | interp r s ql qr LI RI O | bdiag k O | binter k O | sbatch k O
+  mask r s ROWS COLS O | interp r s ql qr LI RI O | bdiag k O | binter k O | sbatch k O |
+  tr O | root O | mulroot RA RB (= Mul(Root RA, Root RB)) | kron A B | catr A B | catc A B
 (ROWS/COLS comma lists of naturals, LI/RI matrices of naturals `a,b;c,d`).  Scalars travel as p/q. -/
 open LinOp LinOp.C07 LinOp.Parse
 
@@ -81,6 +82,28 @@ def parseOp : Nat → List String → Option (AnyOp × List String)
         let k ← k.toNat?
         let (⟨n, m, o⟩, rest) ← parseOp fuel rest
         pure (⟨n, m, .sumBatch k o⟩, rest)
+    | "tr" :: rest => do
+        let (⟨n, m, o⟩, rest) ← parseOp fuel rest
+        pure (⟨m, n, .transpose o⟩, rest)
+    | "root" :: rest => do
+        let (⟨n, _, o⟩, rest) ← parseOp fuel rest
+        pure (⟨n, n, .root o⟩, rest)
+    | "mulroot" :: rest => do
+        let (⟨n, _, a⟩, rest) ← parseOp fuel rest
+        let (⟨n', _, b⟩, rest) ← parseOp fuel rest
+        if h : n' = n then pure (⟨n, n, .mulRoot a (castOp h rfl b)⟩, rest) else none
+    | "kron" :: rest => do
+        let (⟨n₁, m₁, a⟩, rest) ← parseOp fuel rest
+        let (⟨n₂, m₂, b⟩, rest) ← parseOp fuel rest
+        pure (⟨n₁ * n₂, m₁ * m₂, .kron a b⟩, rest)
+    | "catr" :: rest => do
+        let (⟨n₁, m, a⟩, rest) ← parseOp fuel rest
+        let (⟨n₂, m', b⟩, rest) ← parseOp fuel rest
+        if h : m' = m then pure (⟨n₁ + n₂, m, .catRows a (castOp rfl h b)⟩, rest) else none
+    | "catc" :: rest => do
+        let (⟨n, m₁, a⟩, rest) ← parseOp fuel rest
+        let (⟨n', m₂, b⟩, rest) ← parseOp fuel rest
+        if h : n' = n then pure (⟨n, m₁ + m₂, .catCols a (castOp h rfl b)⟩, rest) else none
     | _ => none
 
 def zeroParam : {n m : Nat} → (o : Op n m) → Param Rat o
@@ -97,6 +120,12 @@ def zeroParam : {n m : Nat} → (o : Op n m) → Param Rat o
   | _, _, .blockDiag _ o => fun _ => zeroParam o
   | _, _, .blockInterleaved _ o => fun _ => zeroParam o
   | _, _, .sumBatch _ o => fun _ => zeroParam o
+  | _, _, .transpose o => zeroParam o
+  | _, _, .root o => zeroParam o
+  | _, _, .mulRoot a b => (zeroParam a, zeroParam b)
+  | _, _, .kron a b => (zeroParam a, zeroParam b)
+  | _, _, .catRows a b => (zeroParam a, zeroParam b)
+  | _, _, .catCols a b => (zeroParam a, zeroParam b)
 
 def takeVec (n : Nat) (l : List Rat) : (Fin n → Rat) × List Rat :=
   let a := (l.take n).toArray
